@@ -402,6 +402,53 @@ def batches(ctx):
                  "the node has the same leaf set as a member of the ignore list (stand-in for equal topology ids)",
     )
 
+    # ---------------------------------------------------------------- larger random trees
+    # shapes the exhaustive sweep cannot reach: 6-9 leaves, children in random order (internal subtrees of
+    # different sizes after the first child, nested polytomies), refinement count bounded so that the
+    # list-against-list comparison stays cheap
+    def rand_shape(n):
+        if n == 1:
+            return []
+        k = rng.choice([2, 2, 3, 3, 4]) if n >= 4 else rng.randint(2, n)
+        k = min(k, n)
+        cuts = sorted(rng.sample(range(1, n), k - 1))
+        sizes = [b - a for a, b in zip([0] + cuts, cuts + [n])]
+        rng.shuffle(sizes)
+        return [rand_shape(m) for m in sizes]
+
+    rcases = []
+    want = 160 if quick else 1200
+    tries = 0
+    while len(rcases) < want and tries < 50 * want:
+        tries += 1
+        n = rng.randint(6, 9 if quick else 10)
+        sh = rand_shape(n)
+        names = list("abcdefghij"[:n])
+        rng.shuffle(names)
+        keep = [rng.random() < 0.6 for _ in range(16)]
+        t = label_shape(sh, names, lambda i: f"N{i}" if keep[i] else "")
+        if not has_polytomy(t) or double_fact_count(t) > (150 if quick else 1000):
+            continue
+        rcases.append({"tree": t})
+    ctx.dist["enumerator_random"] = {
+        "cases": len(rcases),
+        "leaves": {str(k): sum(len(leaves_of(c["tree"])) == k for c in rcases) for k in range(6, 11)},
+        "max_refinements": max((double_fact_count(c["tree"]) for c in rcases), default=0),
+    }
+    yield Batch(
+        name="enumerator_random", header=HEADER,
+        run="fun t => Some (binarize t)",
+        eqb="fun a b => match a, b with Some x, Some y => list_eqb bt_eqb x y | _, _ => false end",
+        ty_in="rose", ty_out="option (list bt)",
+        cases=rcases, impl=impl_a,
+        enc_in=lambda c: enc_rose(c["tree"], bundle_codes(c["tree"])),
+        enc_out=enc_out_a, oracle=oracle_a,
+        nontrivial=lambda c, r: True,
+        shard=12,
+        describe="binarize(tree) as an ordered list on random rose trees with 6-9 (thorough: 6-10) leaves, arities 2-4, "
+                 "children of different sizes in random order, at most 150 (1000) refinements each",
+    )
+
     # ---------------------------------------------------------------- (b) inputs
     yield from _input_batch(ctx)
 
